@@ -310,3 +310,25 @@ func VH_C15_descs() {
 		vrt.Equal(back[i].Parameters, list[i].Parameters, "parameters round-trip")
 	}
 }
+
+// the 6-bit parameter count: descriptions with 31, 32, 33 and 63 parameters (concrete values: only the count matters,
+// and a mis-parsed count would otherwise send the parser into a forest of symbolic garbage)
+func VH_C15_desc_count() {
+	n := []int{31, 32, 33, 63}[vrt.Choose("which", 0, 3)]
+	var d QoSFlowDesc
+	d.QFI = 9
+	d.OperationCode = OperationCodeCreateNewQoSFlowDescription
+	want := []byte{9, 1 << 5, 1<<6 | byte(n)}
+	for i := 0; i < n; i++ {
+		d.Parameters = append(d.Parameters, &QoSFlowEBI{EBI: uint8(i % 16)})
+		want = append(want, 0x07, 1, uint8(i%16))
+	}
+	list := QoSFlowDescs{d}
+	out, err := list.MarshalBinary()
+	vrt.Assert(err == nil, "marshalling a description with many parameters succeeds")
+	vrt.Equal(out, want, "E bit and 6-bit parameter count, then the parameters")
+	var back QoSFlowDescs
+	vrt.Assert(back.UnmarshalBinary(out) == nil, "parsing a description with many parameters succeeds")
+	vrt.Assert(len(back) == 1 && len(back[0].Parameters) == n, "all parameters of the one description are recovered")
+	vrt.Equal(back[0].Parameters, d.Parameters, "many parameters round-trip")
+}
